@@ -33,6 +33,10 @@ pub enum Header {
     EciUtf8,
     /// no header, checked through decode_str (input restricted to printable Latin-1)
     Latin1Str,
+    /// Macro 05 / 06 codeword, payload restricted to printable Latin-1, checked through decode_str
+    /// (the decoder re-creates header and trailer around the Latin-1 payload)
+    Macro05Str,
+    Macro06Str,
 }
 
 #[derive(Debug, Clone)]
@@ -116,6 +120,8 @@ impl ScriptCase {
             "Fnc1" => Header::Fnc1,
             "EciUtf8" => Header::EciUtf8,
             "Latin1Str" => Header::Latin1Str,
+            "Macro05Str" => Header::Macro05Str,
+            "Macro06Str" => Header::Macro06Str,
             _ => return None,
         };
         Some(ScriptCase {
@@ -129,8 +135,8 @@ impl ScriptCase {
     fn prefix(&self) -> Vec<u8> {
         match self.header {
             Header::None | Header::Latin1Str => vec![],
-            Header::Macro05 => vec![236],
-            Header::Macro06 => vec![237],
+            Header::Macro05 | Header::Macro05Str => vec![236],
+            Header::Macro06 | Header::Macro06Str => vec![237],
             Header::Fnc1 => vec![232],
             Header::EciUtf8 => vec![241, 27],
         }
@@ -161,14 +167,15 @@ pub fn check(c: &ScriptCase) -> Verdict {
     let expected: Vec<u8> = d.message();
     let desc = || format!("script {:?}, header {:?}, capacity {}, stream {:?}", c.steps.iter().map(step_str).collect::<Vec<_>>(), c.header, c.cap, stream);
     match c.header {
-        Header::EciUtf8 | Header::Latin1Str => {
+        Header::EciUtf8 | Header::Latin1Str | Header::Macro05Str | Header::Macro06Str => {
             let want: String = if c.header == Header::EciUtf8 {
                 match std::str::from_utf8(&c.data) {
                     Ok(s) => s.to_string(),
                     Err(_) => return Verdict::EngineBug("generator produced invalid UTF-8 for the ECI 26 variant".into()),
                 }
             } else {
-                c.data.iter().map(|b| *b as char).collect()
+                // Latin-1 payload (and, for the macro variants, the 7-bit header / trailer around it)
+                expected.iter().map(|b| *b as char).collect()
             };
             match guard(|| datamatrix::data::decode_str(&stream)) {
                 Ok(Ok(s)) if s == want => {}
@@ -277,7 +284,7 @@ const X12_CHARS: &[u8] = b"\r*> 0123456789ABCDEFGHIJKLMNOPQRSTUVWXYZ";
 fn build(segs: Vec<SegRaw>, fin: u16, fin_seg: SegRaw, header: Header, cap_sel: u16, big: bool) -> ScriptCase {
     let cs = match header {
         Header::EciUtf8 => Charset::Ascii7,
-        Header::Latin1Str => Charset::Latin1,
+        Header::Latin1Str | Header::Macro05Str | Header::Macro06Str => Charset::Latin1,
         _ => Charset::Any,
     };
     let mut data: Vec<u8> = Vec::new();
@@ -547,14 +554,14 @@ pub fn from_fuzz_bytes(b: &[u8]) -> ScriptCase {
     };
     let fin_seg = seg(0);
     let segs = (0..nseg).map(|k| seg(k + 1)).collect();
-    let header = [Header::None, Header::None, Header::None, Header::Macro05, Header::Macro06, Header::Fnc1, Header::EciUtf8, Header::Latin1Str][pick(hdr, 8)];
+    let header = [Header::None, Header::None, Header::None, Header::Macro05, Header::Macro06, Header::Fnc1, Header::EciUtf8, Header::Latin1Str, Header::Macro05Str, Header::Macro06Str][pick(hdr, 10)];
     build(segs, fin, fin_seg, header, cap_sel, big)
 }
 
 fn g_script(big: bool) -> BoxedStrategy<ScriptCase> {
     (vec(seg_raw(), 0..=5), any::<u16>(), seg_raw(), any::<u16>(), any::<u16>())
         .prop_map(move |(segs, fin, fin_seg, hdr, cap_sel)| {
-            let header = [Header::None, Header::None, Header::None, Header::Macro05, Header::Macro06, Header::Fnc1, Header::EciUtf8, Header::Latin1Str][pick(hdr, 8)];
+            let header = [Header::None, Header::None, Header::None, Header::Macro05, Header::Macro06, Header::Fnc1, Header::EciUtf8, Header::Latin1Str, Header::Macro05Str, Header::Macro06Str][pick(hdr, 10)];
             build(segs, fin, fin_seg, header, cap_sel, big)
         })
         .boxed()
